@@ -9,8 +9,8 @@ import ThriftVerif.Generated.C07Sites
   deterministic iff its result is invariant under `List.Perm` of that order.  One theorem per class
   of consumer, a classification of every site of the regenerated inventory into one class
   (`site_inventory_covered`, re-checked against /repo on every run), and — for the class that writes
-  entries in iteration order — the proof that the result is *not* invariant (the property is false
-  there on the current tree; see docs/C07.md).
+  entries in iteration order — the proof that the result is *not* invariant: three sites were of that
+  class (defects, since repaired by sorting; see docs/C07.md), none may be.
 -/
 namespace Props.C07
 open Determinism Generated.C07
@@ -122,14 +122,46 @@ theorem insertion_replace_needs_key_alphabet :
     let t := ipTable content [([97, 41, 98], [88])]
     ipReplace t content ≠ ipReplace t.reverse content := by decide
 
-/-! ## class `emitInOrder`: the loop writes every entry to the output as it comes -/
+/-! ## class `sortThen`, continued: the three loops that used to write entries as they came
 
-/- The full statement,
-     ∀ fid es₁ es₂, es₁.Perm es₂ → encMapField fid es₁ = encMapField fid es₂        (descriptor_bytes_perm)
-   is FALSE for the code as it is (meta.write iterates with MapRange and writes as it goes). -/
+`meta.write` (descriptor bytes of `*-reflection.go`), `(*Thrift).FastAppend` (request sent to
+plugins) and fastgo's `(*codewriter).Imports` wrote each entry in iteration order until they were
+repaired (C07 defects 1–3, docs/C07.md); they now collect the entries, sort them, then write. -/
 
-/-- negative witness: a file with the two namespaces `go a` and `java b`. -/
-theorem descriptor_bytes_perm_false :
+/-- descriptor bytes: a map field is written identically for every iteration order. -/
+theorem descriptor_bytes_perm (fid : Nat) (es₁ es₂ : List (Bytes × Bytes)) (hp : es₁.Perm es₂)
+    (hn : (es₁.map Prod.fst).Nodup) : encMapFieldSorted fid es₁ = encMapFieldSorted fid es₂ := by
+  unfold encMapFieldSorted
+  rw [sortedBy_byEncodedKey_perm hp hn]
+
+/-- … and so is the whole marshalled FileDescriptor, whatever orders its two maps are visited in. -/
+theorem file_descriptor_perm (path : Bytes) (inc₁ inc₂ ns₁ ns₂ : List (Bytes × Bytes))
+    (hi : inc₁.Perm inc₂) (hs : ns₁.Perm ns₂) (hni : (inc₁.map Prod.fst).Nodup) (hns : (ns₁.map Prod.fst).Nodup) :
+    encFileDescriptorSorted path inc₁ ns₁ = encFileDescriptorSorted path inc₂ ns₂ := by
+  unfold encFileDescriptorSorted
+  rw [sortedBy_byEncodedKey_perm hi hni, sortedBy_byEncodedKey_perm hs hns]
+
+example : (([([103, 111], [97]), ([106, 97, 118, 97], [98])] : List (Bytes × Bytes)).map Prod.fst).Nodup := by decide
+
+/-- request sent to plugins: `Name2Category` is written identically for every iteration order. -/
+theorem plugin_request_perm (es₁ es₂ : List (Bytes × Nat)) (hp : es₁.Perm es₂)
+    (hn : (es₁.map Prod.fst).Nodup) : encName2Category es₁ = encName2Category es₂ := by
+  unfold encName2Category
+  rw [sortedBy_key_perm_eq Prod.fst bytesLe bytesLe_total bytesLe_trans bytesLe_antisymm hp hn]
+
+/-- fastgo's import block: two groups, each sorted by path — one block for every iteration order
+(with or without go/format). -/
+theorem fastgo_imports_perm (es₁ es₂ : List (Bytes × Bytes)) (hp : es₁.Perm es₂)
+    (hn : (es₁.map Prod.fst).Nodup) : importsFormatted es₁ = importsFormatted es₂ :=
+  importsFormatted_perm hp hn
+
+/-! ### the sort is necessary (the regressions these repairs must not suffer)
+
+Writing the entries in iteration order (`emit`) is *not* permutation invariant; the concrete
+witnesses below are replayed on the thriftgo binary by every run of the check and must give one hash. -/
+
+/-- witness: a file with the two namespaces `go a` and `java b`, written as it comes. -/
+theorem descriptor_bytes_needs_sort :
     ¬ ∀ (fid : Nat) (es₁ es₂ : List (Bytes × Bytes)), es₁.Perm es₂ → encMapField fid es₁ = encMapField fid es₂ := by
   intro h
   have := h 3 [([103, 111], [97]), ([106, 97, 118, 97], [98])] [([106, 97, 118, 97], [98]), ([103, 111], [97])]
@@ -137,14 +169,14 @@ theorem descriptor_bytes_perm_false :
   revert this
   decide
 
-/-- in general: exchanging two different adjacent entries always changes the bytes of the field … -/
-theorem descriptor_bytes_order_sensitive (fid : Nat) (a b : Bytes × Bytes) (r : List (Bytes × Bytes))
+/-- in general: exchanging two different adjacent entries always changes the unsorted bytes of the field … -/
+theorem descriptor_bytes_unsorted_order_sensitive (fid : Nat) (a b : Bytes × Bytes) (r : List (Bytes × Bytes))
     (ha : Small a) (hb : Small b) (hne : a ≠ b) :
     encMapField fid (a :: b :: r) ≠ encMapField fid (b :: a :: r) :=
   encMapField_swap_ne fid r ha hb hne
 
-/-- … and of the whole marshalled FileDescriptor (shown for the namespaces map). -/
-theorem file_descriptor_order_sensitive (path : Bytes) (inc : List (Bytes × Bytes)) (a b : Bytes × Bytes)
+/-- … and of the whole FileDescriptor marshalled without sorting (shown for the namespaces map). -/
+theorem file_descriptor_unsorted_order_sensitive (path : Bytes) (inc : List (Bytes × Bytes)) (a b : Bytes × Bytes)
     (r : List (Bytes × Bytes)) (ha : Small a) (hb : Small b) (hne : a ≠ b) :
     encFileDescriptor path inc (a :: b :: r) ≠ encFileDescriptor path inc (b :: a :: r) := by
   intro h
@@ -158,41 +190,15 @@ theorem file_descriptor_order_sensitive (path : Bytes) (inc : List (Bytes × Byt
 
 example : Small (([103, 111], [97]) : Bytes × Bytes) := by unfold Small; decide
 
-/-- partial: maps with at most one entry are written deterministically. -/
-theorem descriptor_bytes_perm_partial (fid : Nat) (es₁ es₂ : List (Bytes × Bytes)) (hp : es₁.Perm es₂)
-    (h1 : es₁.length ≤ 1) : encMapField fid es₁ = encMapField fid es₂ := by
-  match es₁, es₂, hp, h1 with
-  | [], es₂, hp, _ => rw [List.Perm.nil_eq hp]
-  | [a], es₂, hp, _ => rw [List.singleton_perm.1 hp]
-  | _ :: _ :: _, _, _, h1 => simp at h1
-
-/-- the sorted variant (the suggested repair: sort the keys, then write) is deterministic. -/
-theorem descriptor_bytes_sorted_perm (fid : Nat) (es₁ es₂ : List (Bytes × Bytes)) (hp : es₁.Perm es₂)
-    (hn : (es₁.map Prod.fst).Nodup) : encMapFieldSorted fid es₁ = encMapFieldSorted fid es₂ := by
-  unfold encMapFieldSorted
-  rw [sortedBy_key_perm_eq Prod.fst bytesLe bytesLe_total bytesLe_trans bytesLe_antisymm hp hn]
-
-/-- the same defect class in the request sent to plugins: (*Thrift).FastAppend writes the
-Name2Category map as it iterates; two different entries never commute. -/
-theorem plugin_request_order_sensitive (a b : Bytes × Nat) (r : List (Bytes × Nat))
+/-- `Name2Category` written as it comes: two different entries never commute. -/
+theorem plugin_request_unsorted_order_sensitive (a b : Bytes × Nat) (r : List (Bytes × Nat))
     (ha : a.1.length < 4294967296) (hb : b.1.length < 4294967296) (hva : a.2 < 4294967296)
     (hvb : b.2 < 4294967296) (hne : a ≠ b) :
     emit encNameCategory (a :: b :: r) ≠ emit encNameCategory (b :: a :: r) :=
   emit_swap_ne encNameCategory a b r (encNameCategory_noncomm ha hb hva hvb hne)
 
-/-- the same defect class in fastgo's import block when go/format does not run (`no_fmt`):
-`fmt` and `unsafe` in either order. With formatting on, go/format sorts the block (`perm_then_sort`). -/
-theorem fastgo_imports_order_sensitive :
-    emit importLine [([102, 109, 116], []), ([117, 110, 115, 97, 102, 101], [])] ≠
-    emit importLine [([117, 110, 115, 97, 102, 101], []), ([102, 109, 116], [])] := by decide
-
-/-- … and with go/format on: two groups, each sorted by path — one result for every iteration order. -/
-theorem fastgo_imports_formatted_perm (es₁ es₂ : List (Bytes × Bytes)) (hp : es₁.Perm es₂)
-    (hn : (es₁.map Prod.fst).Nodup) : importsFormatted es₁ = importsFormatted es₂ :=
-  importsFormatted_perm hp hn
-
-/-- without it the block follows the iteration order (`fmt`, `unsafe` again, as (path, alias)). -/
-theorem fastgo_imports_unformatted_order_sensitive :
+/-- fastgo's import block without the sorts and without go/format: `fmt`, `unsafe` in either order. -/
+theorem fastgo_imports_unsorted_order_sensitive :
     importsUnformatted [([102, 109, 116], []), ([117, 110, 115, 97, 102, 101], [])] ≠
     importsUnformatted [([117, 110, 115, 97, 102, 101], []), ([102, 109, 116], [])] := by decide
 
@@ -205,7 +211,7 @@ inductive Cls
   | firstError     -- perm_any: reached only while validating; only success/failure is observable
   | sum            -- perm_sum
   | replacer       -- replacer_perm + insertion_keys_prefix_free (insertion_replace_perm)
-  | emitInOrder    -- NOT invariant: descriptor_bytes_order_sensitive & co. — defect candidates
+  | emitInOrder    -- NOT invariant (descriptor_bytes_unsorted_order_sensitive & co.): a site of this class is a defect
   | notRun         -- code of a runtime library that the compiler never executes
   deriving DecidableEq, Repr
 
@@ -239,17 +245,17 @@ def classified : List Classified := [
     "collects sub-values of one option (stored into a tree keyed by path); only under CheckOptionGrammar"⟩,
   ⟨"generator", "(*insertionPointReplacer).Replace", 0, "range", "string", .replacer, "argument list of strings.NewReplacer"⟩,
   ⟨"generator/fastgo", "(*bitsetCodeGen).GenIfNotSet", 0, "range", "interface{}", .intoMap, "inverts field→bit into bit→field; bits are distinct"⟩,
-  ⟨"generator/fastgo", "(*codewriter).Imports", 0, "range", "string", .emitInOrder,
-    "import lines appended in iteration order; go/format sorts each block afterwards unless no_fmt: DEFECT with -g fastgo:no_fmt"⟩,
+  ⟨"generator/fastgo", "(*codewriter).Imports", 0, "range", "string", .sortThen,
+    "paths collected per group, then sort.Strings on each group (fastgo_imports_perm); was C07 defect 2 (no_fmt) before the sort"⟩,
   ⟨"generator/golang", "(*CodeUtils).BuildFuncMap", 0, "range", "string", .sortThen, "ServiceThrows: collected then sort.Slice by Go type name = the map key"⟩,
   ⟨"generator/golang", "(*importManager).init", 0, "range", "string", .nsAdd, "ns.Add(pkg, path); libNotUsed[pkg] = true"⟩,
   ⟨"generator/golang/extension/meta", "(*instance).Read", 0, "range", "int16", .firstError,
     "names the first missing required field; runs at start-up (RegisterStruct) on constant descriptors that have none missing"⟩,
-  ⟨"generator/golang/extension/meta", "write", 0, "MapRange", "?", .emitInOrder,
-    "map entries written in MapRange order: descriptor bytes of *-reflection.go: DEFECT with -g go:with_reflection"⟩,
+  ⟨"generator/golang/extension/meta", "write", 0, "MapRange", "?", .sortThen,
+    "entries collected with their encoding, sorted by encoded key then value, then written (descriptor_bytes_perm); was C07 defect 1 (with_reflection) before the sort"⟩,
   ⟨"parser", "(*Thrift).BLength", 0, "range", "string", .sum, "adds 4+len(k)+4 per entry of Name2Category"⟩,
-  ⟨"parser", "(*Thrift).FastAppend", 0, "range", "string", .emitInOrder,
-    "Name2Category written in iteration order into the request sent to plugins: DEFECT with -p"⟩,
+  ⟨"parser", "(*Thrift).FastAppend", 0, "range", "string", .sortThen,
+    "keys of Name2Category collected, sort.Strings, then written (plugin_request_perm); was C07 defect 3 (-p) before the sort"⟩,
   ⟨"pkg/namespace", "(*namespace).Iterate", 0, "range", "string", .intoMap,
     "only caller ResolveImports stores imports[path]; paths distinct as name→id is injective here; the Imports template ranges the result in sorted key order"⟩,
   ⟨"thrift_reflection", "(*ConstValueDescriptor).GetValueAsString", 0, "range", "*ConstValueDescriptor", .firstError,
@@ -279,11 +285,8 @@ from the compiler's entry points is one of the classified sites (same package, f
 kind and key type). A new, moved or retyped site breaks this until it is read and classified. -/
 theorem site_inventory_covered : ∀ s ∈ sites, classified.any (fun c => covers c s) = true := by decide
 
-/-- the sites whose iteration order reaches output bytes unsorted — exactly these three. -/
+/-- no classified site writes entries to the output in iteration order. -/
 theorem emit_in_order_sites :
-    (classified.filter (fun c => c.cls == .emitInOrder)).map (fun c => (c.pkg, c.fn, c.ord)) =
-      [("generator/fastgo", "(*codewriter).Imports", 0),
-       ("generator/golang/extension/meta", "write", 0),
-       ("parser", "(*Thrift).FastAppend", 0)] := by decide
+    (classified.filter (fun c => c.cls == .emitInOrder)).map (fun c => (c.pkg, c.fn, c.ord)) = [] := by decide
 
 end Props.C07
